@@ -71,8 +71,12 @@ class SpSolve(SciPySolver):
         """
 
         A_csc = spmatrix_to_csc(A)
-        b = np.ravel(b)
-        return spsolve(A_csc, b)
+        b = np.array(b)
+        if b.ndim == 2 and b.shape[1] > 1:
+            # several right-hand sides: same flattening as the SuiteSparse back-ends
+            return np.ravel(spsolve(A_csc, b))
+
+        return spsolve(A_csc, np.ravel(b))
 
 
 def spmatrix_to_csc(A):
